@@ -147,12 +147,14 @@ def run_job(job):
             c["pointers_checked"] = c.get("pointers_checked", 0) + nptr
             if bad:
                 viol("C07", "pointer", "str/pointer", f"{len(bad)} wrong: {bad[:4]}")
-            ro = elf.section(".rodata")
-            blob = elf.section_data(ro) if ro is not None else b""
-            lost = [d for d in distinct if d not in blob]
-            if lost:
-                viol("C07", "string-missing", "str/string-missing",
-                     f"{len(lost)} distinct strings not in .rodata, e.g. {lost[0][:30]!r}")
+            for secname, strs in sorted(gen_str.distinct_strings(w, by_output_section=True).items()):
+                ro = elf.section(secname)
+                blob = elf.section_data(ro) if ro is not None else b""
+                lost = [d for d in sorted(strs) if d not in blob]
+                c[f"outsec_{secname.strip('.')}"] = c.get(f"outsec_{secname.strip('.')}", 0) + 1
+                if lost:
+                    viol("C07", "string-missing", "str/string-missing",
+                         f"{len(lost)} distinct strings not in {secname}, e.g. {lost[0][:30]!r}")
             try:
                 os.unlink(out)
             except FileNotFoundError:
